@@ -1102,5 +1102,18 @@ example : stageOfF (processFS [(b "root.jst", some (b "JSIGHT 0.3\nINCLUDE a.jst
     = (1, 1, 2) := by decide +kernel
 example : stageOfF (processFS [(b "root.jst", some (b "JSIGHT 0.3\nINCLUDE a.jst\n")), (b "d", none)] noOracleF [])
     = (7, 0, 11) := by decide +kernel
+-- repaired `processEOF` (the unclosed-parenthesis check is made at the end of the ROOT file only): the root opens a
+-- parenthesis, INCLUDEs a file with a child directive and closes the parenthesis after the INCLUDE — accepted, one
+-- interaction (before the repair: "not all explicit contexts are closed" at the end of inc.jst)
+example : stageOfF (processFS [(b "root.jst", some (b "JSIGHT 0.3\nURL /a\n(\n  INCLUDE inc.jst\n)\n")),
+    (b "inc.jst", some (b "GET\n  200 any\n"))] noOracleF []) = (0, 0, 1) := by decide +kernel
+-- … the parenthesis may also be opened in the included file and closed in the root file
+example : stageOfF (processFS [(b "root.jst", some (b "JSIGHT 0.3\nINCLUDE inc.jst\n  GET\n    200 any\n)\n")),
+    (b "inc.jst", some (b "URL /a\n(\n"))] noOracleF []) = (0, 0, 1) := by decide +kernel
+-- … but a parenthesis that is still open at the end of the ROOT file is refused there (file 0, index 38 = `CurrentIndex() - 1`)
+example : (match processFS [(b "root.jst", some (b "JSIGHT 0.3\nURL /a\n(\n  INCLUDE inc.jst\n")),
+      (b "inc.jst", some (b "GET\n  200 any\n"))] noOracleF [] with
+    | .error ⟨f, .ctx .unclosedAtEOF i⟩ => some (f, i)
+    | _ => none) = some (0, 38) := by decide +kernel
 
 end JSight.C01P
